@@ -518,7 +518,111 @@ fn programs(max_len: usize) -> Vec<Vec<Step>> {
     out
 }
 
+//
+// Part C: a prepared request sent twice: every connection carries the same faithful request (the
+// body is written again in full: files from their start, generated bodies again).
+//
+fn twice<B: attohttpc::body::Body>(rb: attohttpc::RequestBuilder<B>, wm: Option<usize>) -> Result<(Vec<u8>, Vec<u8>), String> {
+    let mut p = rb.try_prepare().map_err(|e| format!("prepare: {e}"))?;
+    let mut out = Vec::new();
+    for i in 0..2 {
+        let mut script = Script::plain(OK.to_vec());
+        script.write_max = wm;
+        let world = World::single(script, false);
+        p.send().map_err(|e| format!("send #{}: {e}", i + 1))?;
+        if world.n_conns() != 1 {
+            return Err(format!("send #{}: {} connections", i + 1, world.n_conns()));
+        }
+        out.push(world.written(0));
+    }
+    let second = out.pop().unwrap();
+    Ok((out.pop().unwrap(), second))
+}
+
+fn resend_cells(ctx: &Ctx) -> u64 {
+    let mut n = 0;
+    for body in BODIES {
+        for method in ["POST", "PUT"] {
+            for wm in [None, Some(7usize)] {
+                n += 1;
+                let m = http::Method::from_bytes(method.as_bytes()).unwrap();
+                let res = guarded(|| -> Result<(Vec<u8>, Vec<u8>), String> {
+                    let rb = attohttpc::RequestBuilder::try_new(m.clone(), "http://h.test/p?x=1").map_err(|e| e.to_string())?.header("X-One", "v 1");
+                    match body {
+                        BodySel::None => twice(rb, wm),
+                        BodySel::TextEmpty => twice(rb.text(""), wm),
+                        BodySel::Text => twice(rb.text("h\u{e9}llo\r\n0\r\n\r\nworld"), wm),
+                        BodySel::BytesAll => twice(rb.bytes((0..=255u8).collect::<Vec<u8>>()), wm),
+                        BodySel::File0 | BodySel::File10 | BodySel::File70k | BodySel::File10Seeked | BodySel::File10AtEnd => {
+                            let len = match body {
+                                BodySel::File0 => 0,
+                                BodySel::File70k => 70000,
+                                _ => 10,
+                            };
+                            let mut f = scratch_file("c07", len);
+                            use std::io::Seek;
+                            if body == BodySel::File10Seeked {
+                                f.seek(std::io::SeekFrom::Start(4)).unwrap();
+                            }
+                            if body == BodySel::File10AtEnd {
+                                f.seek(std::io::SeekFrom::End(0)).unwrap();
+                            }
+                            twice(rb.file(f), wm)
+                        }
+                        BodySel::Json => twice(rb.json(&json_value()).map_err(|e| e.to_string())?, wm),
+                        BodySel::JsonStreaming => twice(rb.json_streaming(json_value()), wm),
+                        BodySel::Form => twice(rb.form(&[("a", "1 2"), ("b", "&=\u{e9}")]).map_err(|e| e.to_string())?, wm),
+                        BodySel::MultipartTextOnly | BodySel::MultipartEmpty => {
+                            let mut b = attohttpc::MultipartBuilder::new();
+                            if body == BodySel::MultipartTextOnly {
+                                b = b.with_text("first", "one value").with_text("second", "another value");
+                            }
+                            twice(rb.body(b.build().map_err(|e| e.to_string())?), wm)
+                        }
+                        BodySel::Multipart => {
+                            let form = attohttpc::MultipartBuilder::new()
+                                .with_text("t", "v")
+                                .with_file(attohttpc::MultipartFile::new("f", b"\r\n--x\r\n").with_filename("n.bin"))
+                                .build()
+                                .map_err(|e| e.to_string())?;
+                            twice(rb.body(form), wm)
+                        }
+                    }
+                });
+                let multipart = matches!(body, BodySel::Multipart | BodySel::MultipartTextOnly | BodySel::MultipartEmpty);
+                let class = if multipart { "multipart" } else { "other" };
+                let replay = json!({"engine": "c07", "part": "C"});
+                let desc = format!("{method} with body {body:?}, transport taking {wm:?} bytes per write, prepared once and sent twice");
+                match res {
+                    Err(p) => ctx.violation(format!("C07:resend:panic:{class}"), format!("{desc}: {p}"), replay, n),
+                    Ok(Err(e)) => ctx.violation(format!("C07:resend:failed:{class}"), format!("{desc}: {e}"), replay, n),
+                    Ok(Ok((a, b))) => {
+                        let (ra, rb_) = (parse_single_request(&a), parse_single_request(&b));
+                        match (ra, rb_) {
+                            (Ok(x), Ok(y)) => {
+                                if x.method != y.method || x.target != y.target || x.body != y.body || x.headers != y.headers {
+                                    ctx.violation(
+                                        format!("C07:resend:differs:{class}"),
+                                        format!("{desc}: the second connection carries a different request: body {} bytes vs {} bytes the first time; second request starts \"{}\"", y.body.len(), x.body.len(), esc(&b[..b.len().min(120)])),
+                                        replay,
+                                        n,
+                                    );
+                                }
+                            }
+                            (Ok(_), Err(e)) => ctx.violation(format!("C07:resend:not-wellformed:{class}"), format!("{desc}: second request: {e}"), replay, n),
+                            (Err(_), _) => {} // part A's business
+                        }
+                    }
+                }
+            }
+        }
+    }
+    n
+}
+
 pub fn c07(ctx: &Ctx) -> Report {
+    let n_resend = resend_cells(ctx);
+    ctx.count("prepared_request_sent_twice_cells", n_resend);
     // Part A
     let mut cases_a = Vec::new();
     for method in 0..METHODS.len() {
@@ -630,6 +734,15 @@ pub fn c07(ctx: &Ctx) -> Report {
 }
 
 pub fn replay(v: &serde_json::Value) -> i32 {
+    if v["case"]["part"] == "C" {
+        let ctx = Ctx::new("C07", Tier::Quick);
+        resend_cells(&ctx);
+        let vs = ctx.drain_violations();
+        for (v, n) in &vs {
+            println!("{}: {} ({n} cases)", v.signature, v.what);
+        }
+        return if vs.is_empty() { 0 } else { 1 };
+    }
     let viol = if v["case"]["part"] == "A" {
         let c: CaseA = serde_json::from_value(v["case"]["case"].clone()).expect("case");
         println!("{} {} params {:?} {:?} {:?} {:?} write_max {:?}", METHODS[c.method], URLS[c.url].url, PARAMS[c.params], c.hdrs, c.auth, c.body, c.write_max);
